@@ -37,11 +37,12 @@ ENGINE_CHECKS = [frame_check]
 # ---------------------------------------------------------------------------------------------------------------------
 def _alphabet():
     import cirq
+    import sympy
 
     a, b, c = cirq.LineQubit.range(3)
     return [cirq.X(a), cirq.Y(b), cirq.CZ(a, b), cirq.measure(a, key="k"), cirq.measure(b, key="k"), cirq.measure(c, key="m"),
             cirq.X(b).with_classical_controls("k"), cirq.X(c).with_classical_controls("k", "m"), cirq.Z(c), cirq.CZ(b, c),
-            cirq.H(a), cirq.Z(b)]
+            cirq.H(a), cirq.Z(b), cirq.X(a) ** sympy.Symbol("s"), cirq.rz(sympy.Symbol("t")).on(c), cirq.CZ(a, c) ** sympy.Symbol("s")]
 
 
 def _conflict(o1, o2):
